@@ -135,11 +135,11 @@ class GCWorld(gen.World):
         rng = self.rng
         g = self.g[repo]
         r = rng.random()
-        if r < 0.35 and g.tags:
+        if r < 0.30 and g.tags:
             t = rng.choice(sorted(g.tags))
             self.add(manifest_delete(repo, t))
             g.tags.pop(t, None)
-        elif r < 0.7 and g.man:
+        elif r < 0.58 and g.man:
             # an index with children is not deleted by digest here: its children would be left only in the in-memory
             # child list (known finding F35, demonstrated by corpus/C05/f35-orphaned-child.json)
             cands = [d for d in sorted(g.man) if not (g.man[d]["kind"] == "index" and g.man[d]["refs"])]
@@ -149,13 +149,13 @@ class GCWorld(gen.World):
             self.add(manifest_delete(repo, d))
             for t in [t for t, x in g.tags.items() if x == d]:
                 del g.tags[t]
-        elif r < 0.8 and g.bytes:
+        elif r < 0.66 and g.bytes:
             cands = [d for d in sorted(g.bytes) if not (d in g.man and g.man[d]["kind"] == "index" and g.man[d]["refs"])]
             if not cands:
                 return
             d = rng.choice(cands)
             self.add(blob_delete(repo, d))
-        elif 0.88 <= r < 0.94 and g.man:
+        elif 0.80 <= r < 0.88 and g.man:
             # a manifest that is already there gets one more tag (several index.json entries of one digest)
             d = rng.choice(sorted(g.man))
             if g.man[d].get("subject"):
@@ -163,22 +163,30 @@ class GCWorld(gen.World):
             tag = rng.choice(["t1", "t2", "v1.0"])
             self.add(manifest_put(repo, tag, g.bytes[d], ctype=g.man[d]["mt"]))
             g.tags[tag] = d
-        elif r < 0.88 and g.bytes:
-            # content that is already stored (possibly old by now) is uploaded again through a session: it was uploaded just now
-            plain = [x for x in sorted(g.bytes) if x not in g.man]     # (config / layer content, not the bytes of a manifest)
-            if not plain:
-                return
-            d = rng.choice(plain)
-            data = g.bytes[d]
-            k = self.add(upload_post(repo))
-            h = len(data) // 2
-            if h and rng.random() < 0.5:
-                self.add(upload_patch(repo, "$SID%d$" % k, None, state_token(0), data[:h]))
-                self.add(upload_put(repo, "$SID%d$" % k, None, d, state_token(h), data[h:]))
-            else:
-                self.add(upload_put(repo, "$SID%d$" % k, None, d, state_token(0), data))
+        elif r < 0.80 and g.bytes:
+            self.reupload(repo)
         else:
             self.build(repo)
+
+    def reupload(self, repo, unreferenced=False):
+        """content that is already stored (possibly old by now) is uploaded again through a session: it was uploaded just now"""
+        rng = self.rng
+        g = self.g[repo]
+        plain = [x for x in sorted(g.bytes) if x not in g.man]     # (config / layer content, not the bytes of a manifest)
+        if unreferenced:
+            used = {r_ for m in g.man.values() for r_ in m["refs"]}
+            plain = [x for x in plain if x not in used] or plain
+        if not plain:
+            return
+        d = rng.choice(plain)
+        data = g.bytes[d]
+        k = self.add(upload_post(repo))
+        h = len(data) // 2
+        if h and rng.random() < 0.5:
+            self.add(upload_patch(repo, "$SID%d$" % k, None, state_token(0), data[:h]))
+            self.add(upload_put(repo, "$SID%d$" % k, None, d, state_token(h), data[h:]))
+        else:
+            self.add(upload_put(repo, "$SID%d$" % k, None, d, state_token(0), data))
 
     def age(self, repo, which="all"):
         g = self.g[repo]
